@@ -22,6 +22,11 @@ def _field_of(nm, e, params):
     return None
 
 
+# R1-R5 read the shape of is_equal (which fields, which loop, which dict idiom, which guards); R6 folds it over every way two trees can differ
+FOLDS = {"R6": {"count": "equality verdicts", "min": 80, "about": ("is_equal",)}}
+SUBORDINATE = {"R1": "R6", "R2": "R6", "R3": "R6", "R4": "R6", "R5": "R6"}
+
+
 def run(ctx, rep):
     rep.explanation = (
         "Node.is_equal: every state field except id and parent is compared on both arguments (derived field set); every return "
@@ -52,7 +57,7 @@ def run(ctx, rep):
         rep.oblige(("R1", f), ok, sample={"field": f, "read on both arguments": ok})
         if not ok:
             rep.add("R1", fi.qname, f"field {f}", f"is_equal never compares {f}: two trees differing only there compare equal", fi.loc())
-    rep.floor("state fields to compare", 8)
+    rep.floor("state fields to compare", 8, rule="R1")
     # ---- R2 child loop
     rec = [n for n in ast.walk(fi.node) if isinstance(n, ast.Call) and any(tg.func is not None and tg.func.qname == fi.qname
                                                                             for tg in w.resolve_call(w.types(fi), n))]
@@ -112,7 +117,7 @@ def run(ctx, rep):
     rep.oblige(("R2", "child-count"), len_cmp)
     if not len_cmp:
         rep.add("R2", fi.qname, "len(children)", "the numbers of children are not compared: a prefix of the other child list compares equal", fi.loc())
-    rep.floor("recursive comparisons", 1)
+    rep.floor("recursive comparisons", 1, rule="R2")
     # ---- R3 dict symmetry
     for f, kind in nm.containers.items():
         if kind != "dict":
@@ -234,8 +239,8 @@ def run(ctx, rep):
             if not ok:
                 rep.add("R5", fi.qname, t, f"is_equal can answer True on a path that never compares {f} of the two nodes (the comparison is switched off by a "
                         f"flag or a condition): trees that differ there compare equal, and not symmetrically", fi.loc(t))
-    rep.floor("guard verdicts", 12)
-    rep.floor("dict fields", 3)
+    rep.floor("guard verdicts", 12, rule="R4")
+    rep.floor("dict fields", 3, rule="R3")
     _verdict_worlds(ctx, rep, fi)
 
 
@@ -259,6 +264,8 @@ def _verdict_worlds(ctx, rep, fi):
             d["_" + k] = v
         d["_id"] = d["id"]
         d["_parent"] = None
+        for c in children:
+            c["parent"] = c["_parent"] = d
         return d
 
     def kids(*names, **kw):
@@ -273,6 +280,15 @@ def _verdict_worlds(ctx, rep, fi):
         variants.append((f"{f}: same size, one key differs", {f: dict(base)}, {f: {ks[0]: base[ks[0]], "zz": base[ks[1]]}}, False))
         variants.append((f"{f}: one entry more", {f: dict(base)}, {f: dict(base, extra="e")}, False))
         variants.append((f"{f}: empty vs one entry", {f: {}}, {f: {ks[0]: base[ks[0]]}}, False))
+    for f, base in (("attributes", {"k": "v", "k2": "v2"}), ("nsmap", {"p": "u", "q": "u2"}), ("extras", {"{u}x": "1", "{u}y": "2"})):
+        ks = list(base)
+        # a None value under a key the other side does not have: a `.get()` look-up cannot tell the two apart
+        variants.append((f"{f}: same size, the differing key carries None", {f: {ks[0]: base[ks[0]], "only-here": None}}, {f: {ks[0]: base[ks[0]], "only-there": None}}, False))
+        variants.append((f"{f}: same size, a None value against a missing key", {f: {ks[0]: base[ks[0]], "n": None}}, {f: {ks[0]: base[ks[0]], "other": "x"}}, False))
+    variants.append(("content None against the empty string", {"content": None}, {"content": ""}, False))
+    variants.append(("tail None against the empty string", {"tail": None}, {"tail": ""}, False))
+    variants.append(("grandchild tail None against the empty string", {"children": [mk(name="x", children=kids("g", tail=None))]},
+                     {"children": [mk(name="x", children=kids("g", tail=""))]}, False))
     variants.append(("children: one more", {"children": kids("x", "y")}, {"children": kids("x", "y", "z")}, False))
     variants.append(("children: none vs one", {"children": []}, {"children": kids("x")}, False))
     variants.append(("children: first differs", {"children": kids("x", "y", "z")}, {"children": kids("w", "y", "z")}, False))
@@ -283,9 +299,27 @@ def _verdict_worlds(ctx, rep, fi):
                      {"children": [mk(name="x", children=kids("g", content="other"))]}, False))
     variants.append(("grandchild attribute differs", {"children": [mk(name="x", children=kids("g"))]},
                      {"children": [mk(name="x", children=kids("g", attributes={"k": "v", "k2": "zz"}))]}, False))
-    for (what, ka, kb, want) in variants:
+    def same_ids(n1, n2):
+        # two distinct trees that carry the same node ids (a saved tree loaded twice)
+        def walk(a, b):
+            a["id"] = a["_id"] = b["id"] = b["_id"] = "id-" + a["name"]
+            for x, y in zip(a["children"], b["children"]):
+                walk(x, y)
+        walk(n1, n2)
+
+    def share_maps(n1, n2):
+        # in the first tree every child shares its parent's map *object* (attached before the namespace was declared); the second differs below the root
+        for c in n1["children"]:
+            c["nsmap"] = c["_nsmap"] = n1["nsmap"]
+    special = [("equal trees carrying the same node ids", {"children": kids("x", "y")}, {"children": kids("x", "y")}, True, same_ids),
+               ("a child's nsmap differs while the first tree's child shares its parent's map object", {"children": kids("x")},
+                {"children": kids("x", nsmap={"p": "u", "q": "OTHER"})}, False, share_maps)]
+    for item in [v + (None,) for v in variants] + special:
+        what, ka, kb, want, prep = item
         for swap in (False, True):
             n1, n2 = mk(**_c.deepcopy(ka)), mk(**_c.deepcopy(kb))
+            if prep is not None:
+                prep(n1, n2)
             if swap:
                 n1, n2 = n2, n1
             pe = PEval(ctx.world)
